@@ -19,7 +19,7 @@ Open Scope Z_scope.
 
 (* ------------------------------------------------------------------ *)
 (* Python exceptions                                                  *)
-Inductive err := EValue | EKey | EIndex | EType.
+Inductive err := EValue | EKey | EIndex | EType | EUnicode.   (* UnicodeDecodeError *)
 Inductive res (A : Type) := Ok (a : A) | Err (e : err).
 Arguments Ok {A} a. Arguments Err {A} e.
 
@@ -127,6 +127,91 @@ Definition parse_int (s : seq) : res Z :=
   end.
 
 (* ------------------------------------------------------------------ *)
+(* bytes.decode('utf-8'): strict UTF-8 (no overlong forms, no surrogates, <= U+10FFFF), one byte
+   at a time; state = (continuation bytes still expected, accumulated value, allowed range of the next byte) *)
+Definition ustate := option (nat * Z * Z * Z).
+Fixpoint utf8_dec (st : ustate) (l : list Z) : res seq :=
+  match l with
+  | [] => match st with None => Ok [] | Some _ => Err EUnicode end
+  | b :: t =>
+    match st with
+    | None =>
+      if (0 <=? b) && (b <? 128) then r <- utf8_dec None t ;; Ok (b :: r)
+      else if (194 <=? b) && (b <=? 223) then utf8_dec (Some (1%nat, b - 192, 128, 191)) t
+      else if b =? 224 then utf8_dec (Some (2%nat, 0, 160, 191)) t
+      else if b =? 237 then utf8_dec (Some (2%nat, 13, 128, 159)) t
+      else if (225 <=? b) && (b <=? 239) then utf8_dec (Some (2%nat, b - 224, 128, 191)) t
+      else if b =? 240 then utf8_dec (Some (3%nat, 0, 144, 191)) t
+      else if b =? 244 then utf8_dec (Some (3%nat, 4, 128, 143)) t
+      else if (241 <=? b) && (b <=? 243) then utf8_dec (Some (3%nat, b - 240, 128, 191)) t
+      else Err EUnicode
+    | Some (n, acc, lo, hi) =>
+      if (lo <=? b) && (b <=? hi) then
+        let acc' := acc * 64 + (b - 128) in
+        match n with
+        | S (S n') => utf8_dec (Some (S n', acc', 128, 191)) t
+        | _ => r <- utf8_dec None t ;; Ok (acc' :: r)
+        end
+      else Err EUnicode
+    end
+  end.
+Definition utf8_decode (l : list Z) : res seq := utf8_dec None l.
+
+(* text-mode reading (open(path, 'r'), newline=None): "\r\n" and a lone "\r" become "\n"; the text is
+   cut after every such terminator.  cur = characters of the current line, reversed. *)
+Fixpoint unl (s : seq) (cur : seq) : list seq :=
+  match s with
+  | [] => match cur with [] => [] | _ => [List.rev cur] end
+  | c :: t =>
+    if c =? 10 then List.rev (10 :: cur) :: unl t []
+    else if c =? 13 then
+      match t with
+      | c2 :: t2 => if c2 =? 10 then List.rev (10 :: cur) :: unl t2 [] else List.rev (10 :: cur) :: unl t []
+      | [] => [List.rev (10 :: cur)]
+      end
+    else unl t (c :: cur)
+  end.
+
+(* ------------------------------------------------------------------ *)
+(* the test deciding which attribute keys are 1-based in the text, as a disjunction of atoms
+   (translated separately from the writer and from the reader) *)
+Inductive katom := KIn (l : list seq) | KEq (s : seq) | KEnds (s : seq) | KStarts (s : seq) | KUnknown.
+Fixpoint prefix_seq (p s : seq) : bool :=
+  match p, s with
+  | [], _ => true
+  | x :: p', y :: s' => (x =? y) && prefix_seq p' s'
+  | _ :: _, [] => false
+  end.
+Definition eval_katom (k : seq) (a : katom) : bool :=
+  match a with
+  | KIn l => mem_seq k l
+  | KEq s => eq_seq k s
+  | KEnds s => prefix_seq (List.rev s) (List.rev k)
+  | KStarts s => prefix_seq s k
+  | KUnknown => false
+  end.
+Definition eval_kpred (p : list katom) (k : seq) : bool := existsb (eval_katom k) p.
+(* a sound (syntactic) test that two such predicates agree on every key *)
+Definition katom_eqb (a b : katom) : bool :=
+  match a, b with
+  | KEq x, KEq y => eq_seq x y
+  | KEnds x, KEnds y => eq_seq x y
+  | KStarts x, KStarts y => eq_seq x y
+  | _, _ => false
+  end.
+Fixpoint kflat (p : list katom) : list katom :=
+  match p with
+  | [] => []
+  | KIn l :: t => map KEq l ++ kflat t
+  | a :: t => a :: kflat t
+  end.
+Definition kmem (a : katom) (l : list katom) : bool := existsb (katom_eqb a) l.
+Definition kknown (a : katom) : bool := match a with KUnknown => false | _ => true end.
+Definition kpred_equiv (w r : list katom) : bool :=
+  forallb kknown w && forallb kknown r &&
+  forallb (fun a => kmem a (kflat r)) (kflat w) && forallb (fun a => kmem a (kflat w)) (kflat r).
+
+(* ------------------------------------------------------------------ *)
 (* dict (insertion ordered) as an association list                    *)
 Section Dict.
   Context {V : Type}.
@@ -157,7 +242,8 @@ Record varrec := mkVar {
 
 (* the constants of the codec (instantiated from Gen/GvfConst.v) *)
 Record cfg := mkCfg {
-  pos_keys : list seq;            (* constant.ATTRS_POSITION *)
+  w_shift : list katom;           (* VariantRecord.info: keys written as value + 1 *)
+  r_shift : list katom;           (* seqvar.io.parse_attrs: keys read as value - 1 *)
   sns_types : list seq;           (* constant.SINGLE_NUCLEOTIDE_SUBSTITUTION *)
   all_types : list seq;           (* VariantRecord._VARIANT_TYPES *)
   nolen_types : list seq;         (* types exempt from the len(location) == len(ref) check *)
@@ -200,7 +286,7 @@ Section Codec.
     match attrs with
     | [] => Ok []
     | (k, v) :: t =>
-      vs <- (if mem_seq k (pos_keys C)
+      vs <- (if eval_kpred (w_shift C) k
              then z <- aval_int v ;; Ok (print_int (z + 1))
              else Ok (aval_str v)) ;;
       rest <- info_body t ;;
@@ -228,7 +314,7 @@ Section Codec.
     match split_on EQ field with
     | [key; val] =>
       let val := strip_chr QUOTE val in
-      val' <- (if mem_seq key (pos_keys C)
+      val' <- (if eval_kpred (r_shift C) key
                then z <- parse_int val ;; Ok (print_int (z - 1)) else Ok val) ;;
       Ok (dict_set attrs key (AStr val'))
     | _ => Err EValue
@@ -385,13 +471,14 @@ Section Index.
   Variable P : bool -> seq -> res R.  (* is_circ_rna -> line_to_circ_model or line_to_variant_record *)
   Variable key_of : R -> res seq.     (* record.transcript_id *)
 
-  (* GVFIndex.iterate_pointer over the lines of the file (each with its terminator);
+  (* GVFIndex.iterate_pointer over the BYTE lines of the file (each with its terminator; offsets in bytes);
      cur = (cur_key, pointer.start, pointer.end) *)
   Fixpoint iter_ptr (ic : bool) (lines : list seq) (off : Z) (cur : option ptr) : res (list ptr) :=
     match lines with
     | [] => Ok (match cur with None => [] | Some p => [p] end)
     | l :: t =>
-      let off' := off + zlen l in
+      let off' := off + zlen l in               (* len(line) of the bytes line *)
+      l <- utf8_decode l ;;                       (* line.decode('utf-8') *)
       if starts_with_chr HASH l then iter_ptr ic t off' cur
       else
         r <- P ic l ;; k <- key_of r ;;
@@ -407,14 +494,21 @@ Section Index.
   (* GVFPointer.__iter__ / load: seek, read(len), decode, rstrip, split on newline, parse each *)
   Definition ptr_load (ic : bool) (bytes : seq) (p : ptr) : res (list R) :=
     let '(_, (s, e)) := p in
-    map_res (P ic) (split_on NL (rstrip (slice bytes s e))).
+    buffer <- utf8_decode (slice bytes s e) ;;
+    map_res (P ic) (split_on NL (rstrip buffer)).
 
-  (* linear scan: io.parse / circ.io.parse *)
+  (* linear scan: io.parse / circ.io.parse on a handle opened in TEXT mode (universal newlines).  A byte line
+     ends with "\n", so translating line by line equals translating the whole file. *)
+  Fixpoint scan_texts (ic : bool) (ls : list seq) : res (list R) :=
+    match ls with
+    | [] => Ok []
+    | l :: t => if starts_with_chr HASH l then scan_texts ic t
+                else r <- P ic l ;; rs <- scan_texts ic t ;; Ok (r :: rs)
+    end.
   Fixpoint scan (ic : bool) (lines : list seq) : res (list R) :=
     match lines with
     | [] => Ok []
-    | l :: t => if starts_with_chr HASH l then scan ic t
-                else r <- P ic l ;; rs <- scan ic t ;; Ok (r :: rs)
+    | l :: t => l <- utf8_decode l ;; a <- scan_texts ic (unl l []) ;; b <- scan ic t ;; Ok (a ++ b)
     end.
 
   (* records of a scan whose transcript id is k *)
@@ -513,7 +607,7 @@ Section WF.
 
   (* what the value of an attribute looks like in the text *)
   Definition render_val (k : seq) (v : aval) : res seq :=
-    if mem_seq k (pos_keys C) then z <- aval_int v ;; Ok (print_int (z + 1)) else Ok (aval_str v).
+    if eval_kpred (w_shift C) k then z <- aval_int v ;; Ok (print_int (z + 1)) else Ok (aval_str v).
 
   Definition attr_ok (kv : seq * aval) : bool :=
     let '(k, v) := kv in
@@ -553,7 +647,7 @@ Section WF.
   Definition cfg_ok : bool :=
     mem_seq s_SNV (sns_types C) && mem_seq s_INDEL (sns_types C) && mem_seq s_MNV (sns_types C) &&
     mem_seq s_SNV (all_types C) && mem_seq s_INDEL (all_types C) && mem_seq s_MNV (all_types C) &&
-    negb (mem_seq s_END (pos_keys C)) && forallb row_ok (alt_tab C).
+    kpred_equiv (w_shift C) (r_shift C) && negb (eval_kpred (r_shift C) s_END) && forallb row_ok (alt_tab C).
 End WF.
 
 (* circRNA *)
